@@ -1,6 +1,6 @@
 (* C06 — Subsets of an uncompressed message are decoded independently of each
    other.  Statements only. *)
-From PBK Require Import Base Bits Descr Walk Coder Decode DecodeProofs.
+From PBK Require Import Base Bits Descr Walk Coder Decode DecodeProofs Encode EncodeSubsets.
 
 (* Joint decode of n+1 subsets = the first subset decoded alone, followed by the
    joint decode of the remaining n from the position where the first stopped:
@@ -31,3 +31,34 @@ Theorem C06_decode_suffix_independent : forall T n b t outs vals rest,
   decode_uncompressed T n (b ++ t) = Ok (outs, vals, rest ++ t).
 Proof. exact decode_suffix_independent. Qed.
 Print Assumptions C06_decode_suffix_independent.
+
+(* ---- the encoder ---------------------------------------------------------------- *)
+(* Joint encoding of n+1 subsets = the first subset encoded alone, followed by the
+   joint encoding of the others: same descriptors, same links, and the bits are the
+   concatenation.  For every template and every list of value lists. *)
+Theorem C06_encode_subsets_split : forall T v1 vs outs w,
+  encode_uncompressed T (v1 :: vs) = Ok (outs, w) ->
+  exists o1 w1 outs' w2,
+    encode_uncompressed T [v1] = Ok ([o1], w1) /\
+    encode_uncompressed T vs = Ok (outs', w2) /\
+    outs = o1 :: outs' /\ w = w1 ++ w2.
+Proof. exact encode_subsets_split. Qed.
+Print Assumptions C06_encode_subsets_split.
+
+Theorem C06_encode_subsets_join : forall T v1 vs o1 w1 outs' w2,
+  encode_uncompressed T [v1] = Ok ([o1], w1) ->
+  encode_uncompressed T vs = Ok (outs', w2) ->
+  encode_uncompressed T (v1 :: vs) = Ok (o1 :: outs', w1 ++ w2).
+Proof. exact encode_subsets_join. Qed.
+Print Assumptions C06_encode_subsets_join.
+
+(* position by position: the joint encoding succeeds iff every subset encodes
+   alone, and is then the concatenation of the single encodings (hence permuting
+   the subsets permutes the pieces) *)
+Theorem C06_encode_subsets_each : forall T vs outs w,
+  encode_uncompressed T vs = Ok (outs, w) <->
+  exists singles : list (subset_out * writer),
+    Forall2 (fun v s => encode_uncompressed T [v] = Ok ([fst s], snd s)) vs singles /\
+    outs = map fst singles /\ w = concat (map snd singles).
+Proof. exact encode_subsets_each. Qed.
+Print Assumptions C06_encode_subsets_each.
